@@ -19,6 +19,7 @@
 #include <stdarg.h>
 #include <poll.h>
 #include <signal.h>
+#include <sys/time.h>
 #include <sys/ioctl.h>
 #include "threadpool/threadpool.c"
 #include "threadpool/threadpool_msg_sys.c"
@@ -706,13 +707,20 @@ int main(int argc, char **argv) {
 	vh_tid = 100;
 	if (__sanitizer_set_death_callback) __sanitizer_set_death_callback(death_cb);
 	signal(SIGALRM, on_alarm);
+	signal(SIGPROF, on_alarm);
 	signal(SIGPIPE, SIG_IGN);
 	signal(SIGSEGV, on_crash); signal(SIGBUS, on_crash);
 	g_log_cap = 1u << 22; g_log = malloc(g_log_cap);
 	FILE *f = fopen(argv[1], "r");
 	if (!f) { perror("scenario"); return 2; }
 	char line[512];
-	alarm(120);
+	{	/* watchdog of the whole scenario (a pool thread that never comes back from the client, or a wait that never ends): a
+		 * scenario needs < 0.1 s of CPU time and (its timers are real) < 4 s of wall clock; 10 s of CPU time of the process
+		 * (all threads; robust on a loaded machine) and X02_WD_WALL (quick tier 40, default 120) s of wall clock -> "Hang where=watchdog" ends the trace */
+		struct itimerval it; memset(&it, 0, sizeof(it)); it.it_value.tv_sec = 10;
+		setitimer(ITIMER_PROF, &it, NULL);
+		alarm((getenv("X02_WD_WALL") && atoi(getenv("X02_WD_WALL")) > 0) ? (unsigned)atoi(getenv("X02_WD_WALL")) : 120);
+	}
 	while (fgets(line, sizeof(line), f)) {
 		size_t l = strlen(line);
 		while (l && (line[l - 1] == '\n' || line[l - 1] == '\r')) line[--l] = 0;
